@@ -50,9 +50,16 @@ def canon_sql(v, rows_only=False):
 def canon_translator(t):
     try:
         sql_ast, attr_offsets = t.construct_sql_ast()
-        return [type(t).__name__, repr(sql_ast)[repr(sql_ast).find("'FROM'"):], sorted((repr(k), repr(v)) for k, v in t.fixed_param_values.items())]
+        r = re.sub(r' at 0x[0-9a-f]+', '', repr(sql_ast))
+        return [type(t).__name__, r[r.find("'FROM'"):], sorted((re.sub(r'\b\d{6,}\b', 'ID', repr(k)), repr(v)) for k, v in t.fixed_param_values.items())]
     except Exception as e:
         return [type(t).__name__, 'construct failed: ' + type(e).__name__]
+
+
+def decode(v):
+    if isinstance(v, (tuple, list)): return [decode(i) for i in v]
+    if hasattr(v, 'co_names'): return ['code', list(v.co_names), [c for c in v.co_consts if not hasattr(c, 'co_names')]]
+    return v
 
 
 CANON = {
@@ -60,7 +67,7 @@ CANON = {
     'ast_cache': lambda v: ast.dump(v[0]),
     'string2ast_cache': lambda v: ast.dump(v),
     'adapted_sql_cache': lambda v: [v[0], repr(v[1].co_consts)],
-    'raw_sql_cache': lambda v: repr(v),
+    'raw_sql_cache': lambda v: repr(decode(v)),
     '_translator_cache': canon_translator,
     '_constructed_sql_cache': lambda v: canon_sql(v, rows_only=True),
     '_find_sql_cache_': lambda v: canon_sql(v, rows_only=True),
@@ -526,7 +533,7 @@ def gen_modification(rng):
     if k == 'db_insert_b': return ['db_insert_b', rng.choice(INTS), rng.choice([7, 8])]
     if k == 'db_insert_ret': return ['db_insert_ret', rng.choice(INTS)]
     if k == 'set_hook':
-        prog = [[rng.choice(['q_count', 'q_cmp', 'q_sum', 'e_select_a']), rng.choice(INTS[:3])] for _ in range(rng.choice([0, 1, 2]))]
+        prog = [[rng.choice(['q_countd', 'q_cmp', 'q_sum', 'e_select_a', 'q_lambda']), rng.choice(INTS[:3])] for _ in range(rng.choice([0, 1, 2]))]
         return ['set_hook', prog]
     return [k]
 
@@ -549,11 +556,18 @@ def gen_history(rng, n):
         elif r < 0.92: st = gen_modification(rng)
         else: st = [rng.choice(['end', 'end', 'end_rollback'])]
         hist.append(st)
+        if st[0].startswith('db_insert'): hist.append(['commit'])   # raw writes bypass the session by contract: not read in the same transaction
     hist.append(['end'])
     return hist
 
 
 # ------------------------------------------------------------------------------------------------ the differential oracle
+
+def valid(hist):
+    """Database.insert / raw SQL writes bypass the session (documented: not to be read back in the same transaction)"""
+    for i, st in enumerate(hist):
+        if st[0].startswith('db_insert') and (i + 1 >= len(hist) or hist[i + 1][0] not in ('commit', 'end')): return False
+    return True
 
 def differs(hist):
     try:
@@ -592,19 +606,27 @@ def step_key(st):
     return '%s(%s)' % (st[0], ','.join(arg(v) for v in st[1:]))
 
 def report_difference(ctx, hist, d, source):
-    minimal = ddmin(hist, lambda h: differs(h) is not None and differs(h)[0] != 'harness')
+    minimal = ddmin(hist, lambda h: valid(h) and (lambda d: d is not None and d[0] != 'harness')(differs(h)))
     dd = differs(minimal) or d
     # simplify the arguments' names for the key: step names and argument classes
-    key = 'hist:' + '>'.join(step_key(s) for s in minimal if s[0] not in ('end',))
-    key = KNOWN_SHAPES.get(key, key)
+    key = classify(minimal) or 'hist:' + '>'.join(step_key(s) for s in minimal if s[0] not in ('end',))
     ctx.violation('warm caches and cold caches give different answers (step %s of the minimal history)' % (dd[0],),
                   {'history': minimal, 'source': source, 'first_differing_step': dd[0]},
                   observed={'warm': dd[1]}, expected={'cold': dd[2]}, key=key)
     return minimal
 
 
-# canonical keys of the minimal histories of the three defects confirmed while building the check (see witnesses below)
-KNOWN_SHAPES = {}
+def classify(minimal):
+    """canonical key of a minimal history that is an instance of one of the three defects confirmed while building the check
+    (the witnesses below replay one fixed instance of each on every run)"""
+    names = [s[0] for s in minimal if s[0] not in ('end', 'commit')]
+    if names and all(n.startswith('db_insert') for n in names) and 'db_insert_ret' in names:
+        return 'db-insert-cache:returning-concatenated-with-columns'
+    if names and all(n == 'q_fcall' for n in names) and any(s[1] == ['@fn', 'count'] for s in minimal if s[0] == 'q_fcall'):
+        return 'extractors-cache:call-name-classified-once-per-code-object'
+    if 'objflush' in names and 'set_hook' in names:
+        return 'result-cache:entity-flush-does-not-clear'
+    return None
 
 
 def random_histories(ctx):
@@ -630,6 +652,7 @@ def random_histories(ctx):
             found += 1
             if found <= 6: report_difference(ctx, hist, (i, w[i], c[i]), 'random history #%d (seed %d)' % (h, ctx.seed))
     ctx.count('histories', n_hist)
+    flush_protocol(ctx)
 
 
 # ------------------------------------------------------------------------------------------------ ties
@@ -670,7 +693,7 @@ def check_functionality(ctx, inst, hist):
             ctx.count('key-collision:' + kind)
             predicted = (kind == 'extractors_cache' and 'Field.scope_classification' not in MODEL_KEYS.get('extractorsKey', [])) or \
                         (kind == '_insert_cache' and MODEL_KEYS.get('dbInsertKeyFlat', True))
-            if kind == '_translator_cache': predicted = True   # same key, other pinned values: the model's re-check case
+            if kind == '_translator_cache' and c1[2:] != c2[2:]: predicted = True   # same key, other pinned values: the model's re-check case
             if not predicted and MODEL_KEYS:
                 ctx.divergence('two different values were computed for ONE key of a cache the model proves transparent',
                                {'cache': d_.name, 'key': repr(key)[:300], 'history': hist}, model='one value per key', impl=[c1, c2])
@@ -708,18 +731,27 @@ def check_protocol(ctx, inst, hist):
                 if c['t'] == 'call' and c['cacheable']:
                     ctx.count('load-cache:stored-under-other-key' if c['s'] != c['k'] else 'load-cache:stored-under-lookup-key')
         reqs.append({'op': 'memo', 'calls': calls}); metas.append((d_.name, real))
-    if not reqs: return
-    outs = ctx.driver('C05', reqs)
-    for (name, real), out in zip(metas, outs):
+    for r, (name, real) in zip(reqs, metas):
+        PENDING_PROTOCOL.append((r, name, real, hist))
+
+
+PENDING_PROTOCOL = []
+
+def flush_protocol(ctx):
+    if not PENDING_PROTOCOL or not ctx.driver.ok: return
+    outs = ctx.driver('C05', [p[0] for p in PENDING_PROTOCOL])
+    for (r, name, real, hist), out in zip(PENDING_PROTOCOL, outs):
         ctx.count('protocol-logs')
         if out.get('events') != real:
             ctx.divergence('the real dict operations are not the memo protocol of the model', {'cache': name, 'history': hist}, model=out.get('events') or out, impl=real)
+    del PENDING_PROTOCOL[:]
 
 
 def translator_tie(ctx):
     """pinned parameter values: Query._get_translator vs Model.trMemo"""
     if not ctx.driver.ok: return
     rng = ctx.rng
+    batch = []
     for kind, fn, norm in (('start', q_slice1, 'start'), ('stop', q_slice2, 'stop'), ('getattr', q_getattr, 'id')):
         for rep in range(ctx.scale(3, 20)):
             vals = [rng.choice([None, 0, 1, 2, -1]) if kind != 'getattr' else rng.choice(['a', 'b', 's']) for _ in range(rng.choice([3, 6, 10]))]
@@ -745,13 +777,16 @@ def translator_tie(ctx):
             finally:
                 inst.uninstall(); db.disconnect()
             enc = lambda v: v if not isinstance(v, str) else 'abs'.index(v)
-            calls = [{'t': 'call', 'key': [1], 'vars': [[0, enc(v)]], 'cacheable': True} for v in vals]
-            out = ctx.driver('C05', [{'op': 'translator', 'calls': calls, 'pins': [[[1], [0]]], 'norm': norm}])[0]
+            # the parameter TYPE is part of the query key (vartypes): None and int are different keys; nothing is pinned for None
+            calls = [{'t': 'call', 'key': [2 if v is None else 1], 'vars': [[0, enc(v)]], 'cacheable': True} for v in vals]
+            batch.append(({'op': 'translator', 'calls': calls, 'pins': [[[1], [0]], [[2], []]], 'norm': norm}, kind, vals, real_events, real_fixed))
             ctx.case(['translator', kind, vals], kind='tie:translator-cache')
             for e in real_events: ctx.count('translator:' + e)
-            if out.get('events') != real_events or out.get('fixed') != real_fixed:
-                ctx.divergence('translator cache: hit / reject / pinned values differ from the model', {'kind': kind, 'values': vals},
-                               model=[out.get('events'), out.get('fixed')], impl=[real_events, real_fixed])
+    outs = ctx.driver('C05', [b[0] for b in batch])
+    for (req, kind, vals, real_events, real_fixed), out in zip(batch, outs):
+        if out.get('events') != real_events or out.get('fixed') != real_fixed:
+            ctx.divergence('translator cache: hit / reject / pinned values differ from the model', {'kind': kind, 'values': vals},
+                           model=[out.get('events'), out.get('fixed')], impl=[real_events, real_fixed])
 
 
 # ---- result cache: scripts compiled to model ops and executed on real Pony
@@ -790,6 +825,7 @@ def r_query(state, k):
 def results_tie(ctx):
     rng = ctx.rng
     clears = MODEL_KEYS.get('entityFlushClearsResults', False)
+    batch = []
     for rep in range(ctx.scale(60, 1500)):
         # a script
         n = rng.choice([4, 8, 14])
@@ -853,8 +889,10 @@ def results_tie(ctx):
             if ans != truth:
                 ctx.violation('a query answered from the per-session result cache although the database state of the transaction had changed',
                               {'script': script, 'query': mo['k']}, observed=ans, expected=truth, key='result-cache:entity-flush-does-not-clear' if any(s[0] == 'objflush' for s in script) else 'result-cache:stale:' + json.dumps(script))
-        if ctx.driver.ok:
-            out = ctx.driver('C05', [{'op': 'results', 'clears': clears, 'warm': True, 'hist': model_ops}])[0]
+        batch.append(({'op': 'results', 'clears': clears, 'warm': True, 'hist': model_ops}, script, model_ops, real))
+    if ctx.driver.ok and batch:
+        outs = ctx.driver('C05', [b[0] for b in batch])
+        for (req, script, model_ops, real), out in zip(batch, outs):
             mouts = [o for o in out.get('outs', []) if o is not None]
             def interp(dbl):
                 rows = set()
@@ -896,7 +934,7 @@ def witnesses(ctx):
                       "db.insert('P', a=2, s='ins', b=7) share the key ('P','a','s','b'); the second call re-uses the first statement and silently drops column b",
                       {'history': h}, observed={'warm': d[1]}, expected={'cold': d[2]}, key='db-insert-cache:returning-concatenated-with-columns')
     # 3. Entity.flush does not clear query_results (through the result-cache tie's own oracle as well)
-    h = [['set_hook', [['q_count', -1]]], ['create', 1, None, 'n1', 0], ['create', 2, None, 'n1', 0], ['objflush', 0], ['objflush', 0], ['end']]
+    h = [['set_hook', [['q_countd', -1]]], ['create', 7, None, 'n1', 0], ['create', 8, None, 'n1', 0], ['objflush', 0], ['objflush', 0], ['end']]
     d = differs(h)
     ctx.case(['witness', 'objflush'], kind='witness:entity-flush-result-cache')
     if d is not None:
